@@ -203,6 +203,9 @@ def check_config(config: dict) -> None:
         "lambda_minus_one", False
     )
 
+    if n_ens < 2:
+        raise TOMLConfigError("Define at least 2 interfaces!")
+
     if lambda_minus_one is not False and lambda_minus_one >= intf[0]:
         raise TOMLConfigError(
             "lambda_minus_one interface must be less than the first interface!"
@@ -210,9 +213,6 @@ def check_config(config: dict) -> None:
 
     if quantis and lambda_minus_one is not False:
         raise TOMLConfigError("Cannot run quantis with lambda_minus_one!")
-
-    if n_ens < 2:
-        raise TOMLConfigError("Define at least 2 interfaces!")
 
     if n_workers > n_ens - 1:
         raise TOMLConfigError("Too many workers defined!")
